@@ -386,6 +386,7 @@ ANN_SCHEMAS = [
     ("annotated", "x: __E2 = __E1", [("x", None, "__E2", "__VE1", True)]),
     ("annotated-tagstring", "x: '@A & @B' = __E1", [("x", None, "'@A & @B'", "__VE1", True)]),
     ("declaration", "x: int", [("x", None, "int", "__ptera_ABSENT", True)]),
+    ("declaration-tagstring", "x: '@A & @B'", [("x", None, "'@A & @B'", "__ptera_ABSENT", True)]),
     ("annotated-attribute", "o.y: int = __E1", [("o", ("attr", "y"), "int", "__VE1", True)]),
     ("declared-attribute", "o.y: int", []),
 ]
@@ -419,14 +420,19 @@ def u_visit_annassign(c):
     e = evs[0]
     exp = [(e[0], ev_sig(*e)[1], ann_key, PE.dump(parse_expr(e[3])), e[4])] if inst else []
     c.prove(f"{label}/event-carries-this-binding's-annotation", got == exp, note=f"{got} vs {exp}", only=["C02", "C11"])
-    if label == "declaration":
+    # whether the binding is in the capture set is asked with the TAGS of the binding ('@A & @B' is get_tags('A', 'B')), never with the spelling
+    # of the annotation: a selector that carries a category (f > x:@A) is compared with tags
+    asked = sorted({k_[1] for k_ in dec if k_[0] == name and k_[1] is not None})
+    c.prove(f"{label}/capture-set-consulted-with-the-binding's-tags", all(a == ann_key for a in asked), note=f"asked with {asked}, the binding's tags are {ann_key}",
+            only=["C11", "C16", "C02"])
+    if label.startswith("declaration"):
         if not inst:
-            c.prove("declaration/outside-the-capture-set-left-untouched(binds nothing)", len(outs) == 1 and PE.dump(outs[0]) == PE.dump(original), only=["C16", "C01"])
+            c.prove(f"{label}/outside-the-capture-set-left-untouched(binds nothing)", len(outs) == 1 and PE.dump(outs[0]) == PE.dump(original), only=["C16", "C01"])
         # from the property (C16): a declared-only variable is supplied from outside or fails loudly; the marker is never bound unchecked
         leaks = marker_leaks(outs)
-        c.prove("declaration/ABSENT-marker-only-inside-interact", not leaks, note=str(leaks), only=["C16"])
+        c.prove(f"{label}/ABSENT-marker-only-inside-interact", not leaks, note=str(leaks), only=["C16"])
         if inst:
-            c.prove("declaration/rewritten-to-interaction", len(outs) == 1 and isinstance(outs[0], ast.Assign) and PE.is_interact(outs[0].value)
+            c.prove(f"{label}/rewritten-to-interaction", len(outs) == 1 and isinstance(outs[0], ast.Assign) and PE.is_interact(outs[0].value)
                     and PE.dump(outs[0].value.args[3]) == PE.dump(ast.Name(id=PE.ABSENT, ctx=ast.Load())), only=["C16"])
     else:
         erased, problems = PE.erase(outs)
@@ -436,7 +442,7 @@ def u_visit_annassign(c):
         c.prove(f"{label}/transparent-up-to-annotation", PE.dump(erased) == PE.dump([want]) or PE.dump(erased) == PE.dump([original]), only=["C01", "C04"])
         for k_ in sorted({p.rule for p in problems}):
             c.prove(f"{label}/{k_}", False, note="; ".join(p.what for p in problems if p.rule == k_), only=["C01"])
-    if not inst and label != "declaration":
+    if not inst and not label.startswith("declaration"):
         c.prove(f"{label}/uninstrumented-left-as-plain-assignment", all(not PE.events([o]) for o in outs), only=["C01"])
 
 
@@ -527,7 +533,7 @@ def u_visit_return(c):
         c.prove("bare-return/value-event-reports-None", got == exp, only=["C06"])
 
 
-@unit("visit_Yield", ["C01", "C06", "C04", "C09", "C05", "C02", "C07"], VISITORS, replay=_replay_native("visit_Yield"))
+@unit("visit_Yield", ["C01", "C06", "C04", "C09", "C05", "C02", "C07", "C03", "C11", "C12", "C13", "C16", "C17"], VISITORS, replay=_replay_native("visit_Yield"))
 def u_visit_yield(c):
     """yield E -> interact('#receive', None, enter_tag, (yield interact('#yield', None, exit_tag, visit(E), True)), True):
     one #yield event with the yielded value, then on resumption one #receive with the sent value."""
@@ -560,7 +566,7 @@ def u_visit_yield(c):
     ys = [x for x in ast.walk(out) if isinstance(x, (ast.Yield, ast.YieldFrom))]
     c.prove("yield/the-frame-does-the-yield", len(ys) == 1 and isinstance(ys[0], ast.YieldFrom) and isinstance(ys[0].value, ast.Call)
             and PE.dump(ys[0].value.func) == PE.dump(ast.Name(id="__ptera_yielding", ctx=ast.Load())) and len(ys[0].value.args) == 2
-            and PE.dump(ys[0].value.args[0]) == PE.dump(ast.Name(id="__ptera_frame", ctx=ast.Load())), only=["C09", "C05", "C02", "C06", "C07"])
+            and PE.dump(ys[0].value.args[0]) == PE.dump(ast.Name(id="__ptera_frame", ctx=ast.Load())), only=["C09", "C05", "C02", "C06", "C07", "C03", "C11", "C12", "C13", "C16", "C17"])
 
 
 # ---------------------------------------------------------------------------------------------
@@ -681,7 +687,7 @@ PASS_SCHEMAS = [
 ]
 
 
-@unit("pass-through", ["C01", "C02", "C06", "C09", "C05", "C07"], VISITORS + [AST + ":NodeTransformer.generic_visit", AST + ":NodeVisitor.visit"], replay=_replay_native("pass-through"))
+@unit("pass-through", ["C01", "C02", "C06", "C09", "C05", "C07", "C03"], VISITORS + [AST + ":NodeTransformer.generic_visit", AST + ":NodeVisitor.visit"], replay=_replay_native("pass-through"))
 def u_passthrough(c):
     """Statement forms without a dedicated rule go through NodeTransformer.generic_visit (interpreted from the stdlib source):
     while / if / with / nested def / class / global / nonlocal / expression / del / raise / assert / lambda / comprehension."""
@@ -695,7 +701,7 @@ def u_passthrough(c):
         ys = [x for o in outs for x in ast.walk(o) if isinstance(x, (ast.Yield, ast.YieldFrom))]
         c.prove("yield-from/the-frame-does-the-delegation", len(ys) == 1 and isinstance(ys[0], ast.YieldFrom) and isinstance(ys[0].value, ast.Call)
                 and PE.dump(ys[0].value.func) == PE.dump(ast.Name(id="__ptera_delegating", ctx=ast.Load())) and len(ys[0].value.args) == 2
-                and PE.dump(ys[0].value.args[0]) == PE.dump(ast.Name(id="__ptera_frame", ctx=ast.Load())), only=["C09", "C05", "C02", "C06", "C07"])
+                and PE.dump(ys[0].value.args[0]) == PE.dump(ast.Name(id="__ptera_frame", ctx=ast.Load())), only=["C09", "C05", "C02", "C06", "C07", "C03", "C11", "C12", "C13", "C16", "C17"])
     if label == "with-two-targets" and outs is not None and dec.get(("w", None)):
         # `with A as w, B as (p, q)`: w is bound BEFORE B is entered (the statement is equivalent to nested withs); its event must be
         # delivered at that moment -- if entering B raises, w was bound all the same
@@ -744,7 +750,7 @@ def _split_root(out):
     return doc, w, inner, tr_
 
 
-@unit("visit_FunctionDef", ["C01", "C02", "C06", "C16", "C11"], VISITORS, replay=_replay_native("visit_FunctionDef"))
+@unit("visit_FunctionDef", ["C01", "C02", "C06", "C16", "C11", "C04"], VISITORS, replay=_replay_native("visit_FunctionDef"))
 def u_visit_functiondef(c):
     """Root function: `with proceed(self) as frame:` around try / except BaseException as #error / finally; #enter first,
     external and closure prelude, one interaction per parameter in signature order carrying its annotation, visited body;
@@ -824,6 +830,13 @@ def u_visit_functiondef(c):
             exp.append((p, None, akey, PE.dump(ast.Name(id=p, ctx=ast.Load())), True))
     got = [e.sig() for e in evs if e.name != "#enter"][:len(exp)]
     c.prove(f"{label}/prelude-and-parameters-reported-in-order", got == exp, note=f"{got} vs {exp}", only=["C02", "C11", "C04"])
+    # C04: a variable captured from an enclosing function is never silently overridden.  The report made on entry is the only interaction
+    # about it that is NOT overridable (that is where an override attempt is turned into an error): it is made for every closure variable
+    # of the capture set, whether the function reads it, only rebinds it (`nonlocal n; n += x`) or does neither
+    for fv in free:
+        if dec.get((fv, None)):
+            rep = [e for e in evs if e.name == fv and e.sig()[4] is False]
+            c.prove(f"{label}/closure-variable-reported-on-entry-as-not-overridable", len(rep) == 1, note=f"{fv}: {len(rep)} reports", only=["C04"])
     # ---- C06: a #value event on every normal completion
     last = body[-1] if body else None
     completes = not isinstance(last, (ast.Return, ast.Raise))
